@@ -94,6 +94,24 @@ Definition run (c : sx) : sx :=
               L (map (fun row => L (map ofQI row)) (cov_matrix cs ndim mode nvar pts)) ]
       | _, _, _, _, _ => sx_error 1
       end
+  | L [I 3%Z; I type; p; sc; dg; als] =>
+      (* covariance on the sphere: (3 type param scale degree (alpha ...)) *)
+      match asQ p, asQ sc, asNat dg, asQL als with
+      | Some param, Some scale, Some degree, Some al =>
+          let sp := sphere_spectrum type param scale degree in
+          L (map (fun a => ofQI (match sphere_covI type scale degree sp a with Some x => i2qq x | None => None end)) al)
+      | _, _, _, _ => sx_error 1
+      end
+  | L [I 4%Z; I type; p; sc; nn] =>
+      (* normalised Legendre spectrum: (4 type param scale n) *)
+      match asQ p, asQ sc, asNat nn with
+      | Some param, Some scale, Some n =>
+          match sphere_spectrum type param scale n with
+          | Some l => L (map ofQ l)
+          | None => L []
+          end
+      | _, _, _ => sx_error 1
+      end
   | L [I 9%Z] =>
       L [ ofB (table_ok cov_table);
           L (map (fun e => L [I (ce_code e); ofMaxdim (ce_maxdim e);
